@@ -215,6 +215,23 @@ def build(ctx):
         ctx.safety("space_group.SpaceGroup.apply_all_symops", res, fn=f_apply)
     ctx.attempt("space_group.SpaceGroup.apply_all_symops/ensures/block_layout", ob_layout, replay=layout_replay, fn=f_apply)
 
+    # engine guard: the symbolic executor on concrete groups and points agrees with CPython
+    def engine_guard():
+        from pyvc.crosscheck import crosscheck
+        from chmpy.crystal import SpaceGroup as NSG
+
+        def eng_sg(sg):
+            return Obj(SGcls, {"symmetry_operations": [Obj(SOcls, {"rotation": farr(np.asarray(o.rotation, float).tolist()), "translation": farr(np.asarray(o.translation, float).tolist()),
+                                                                   "_integer_code": int(o.integer_code)}) for o in sg.symmetry_operations]})
+        pts = [[0.11, 0.23, 0.37], [0.6, -0.05, 1.9]]
+        for number, choice in ((14, ""), (2, ""), (19, ""), (146, "H")):
+            nsg = NSG(number, choice=choice) if choice else NSG(number)
+            sg_e = eng_sg(nsg)
+            fv = I.getattr(sg_e, "apply_all_symops")
+            crosscheck(ctx, I, fv, lambda p_, nsg=nsg: tuple(nsg.apply_all_symops(np.array(p_))), [(pts,), (pts[:1],)], to_engine=lambda a: (farr(a[0]),),
+                       label=f"SpaceGroup({number}{choice}).apply_all_symops")
+    ctx.attempt("space_group.SpaceGroup.apply_all_symops/engine_guard", engine_guard)
+
     # G: int32 store of generator codes
     import chmpy.crystal.space_group as sgm
     mx = max(max(row.symops) for rows in sgm.SG_FROM_NUMBER.values() for row in rows)
